@@ -223,6 +223,9 @@ func runKernel(l *loaded, k *Kernel, tier string, seed int64) *KernelResult {
 	if tier == "thorough" {
 		budget = 60 * time.Minute
 	}
+	if v, ok := params["unwind"]; ok {
+		cfg.Unwind = v // loop iterations per path before the path is given up as "unwind" (stated in the evidence as a bound)
+	}
 	if v, ok := params["budget_s"]; ok {
 		budget = time.Duration(v) * time.Second
 	}
@@ -560,6 +563,9 @@ func replayFile(l *loaded, file string, verbose bool) bool {
 	}
 	if v, ok := rf.Params["preempt"]; ok {
 		cfg.Preempt = v
+	}
+	if v, ok := rf.Params["unwind"]; ok {
+		cfg.Unwind = v
 	}
 	ex := NewExplorer(l.prog, cfg)
 	hp := l.pkgs[pkgPath(k.Pkg)]
